@@ -2,8 +2,9 @@
 """tools/keep_seed.py <PID> <k> <base_commit> <caught:yes|no> "<caught by / note>" : copy a confirmed seeded change into /verif/seeded/"""
 import json, os, shutil, sys, re
 pid, k, base, caught, note = sys.argv[1:6]
+dk = sys.argv[6] if len(sys.argv) > 6 else k  # destination number (second-round seeds of a property)
 src = f"/tmp/seed_{pid}_out"
-dst = f"/verif/seeded/{pid}-{k}"
+dst = f"/verif/seeded/{pid}-{dk}"
 os.makedirs(dst, exist_ok=True)
 shutil.copy(f"{src}/patch{k}.diff", f"{dst}/patch.diff")
 shutil.copy(f"{src}/demo{k}.py", f"{dst}/demo.py")
@@ -11,7 +12,7 @@ notes = open(f"{src}/notes.md").read() if os.path.exists(f"{src}/notes.md") else
 open(f"{dst}/notes.md", "w").write(notes)
 meta = {
     "property": pid,
-    "seed": f"{pid}-{k}",
+    "seed": f"{pid}-{dk}",
     "base_commit": base,
     "produced_by": "fresh sub-agent given only the property text and a scratch worktree (tools/seed_prompt.py)",
     "needs_to_manifest": "see notes.md (section for change %s)" % k,
